@@ -210,6 +210,9 @@ type caseMsg struct {
 	Stats *Stats     `json:"stats,omitempty"`
 	Cases int        `json:"cases,omitempty"`
 	Note  string     `json:"note,omitempty"`
+	// Prelude: seeds of the cases this worker process ran before the reported one (a violation may
+	// depend on what the process did earlier; the replay runs them first)
+	Prelude []uint64 `json:"prelude,omitempty"`
 }
 
 type ReplayFile struct {
@@ -217,6 +220,7 @@ type ReplayFile struct {
 	Seed     uint64   `json:"case_seed"`
 	Tape     []uint32 `json:"tape"`
 	Sig      string   `json:"expected_signature"`
+	Prelude  []uint64 `json:"prelude_case_seeds,omitempty"` // cases the worker process had run before (run first on replay)
 	Class    string   `json:"class"`
 	Detail   string   `json:"detail"`
 	Note     string   `json:"note,omitempty"`
@@ -335,6 +339,7 @@ func workerMain(w World, cfg Config) int {
 	start := time.Now()
 	n := 0
 	seenSig := map[string]bool{}
+	var ranSeeds []uint64 // seeds of the cases this process has run so far
 	startWatchdog(cfg.watchdog())
 	for i := *fFirst; ; i++ {
 		if *fCount > 0 && n >= *fCount {
@@ -347,6 +352,8 @@ func workerMain(w World, cfg Config) int {
 			break
 		}
 		cs := CaseSeed(*fSeed, i)
+		prelude := append([]uint64(nil), ranSeeds...)
+		ranSeeds = append(ranSeeds, cs)
 		emit(out, caseMsg{T: "start", Case: i, Seed: cs})
 		beat()
 		caseDigest = 0
@@ -383,7 +390,7 @@ func workerMain(w World, cfg Config) int {
 					v, rec = r, min
 				}
 			}
-			emit(out, caseMsg{T: "viol", Case: i, Seed: cs, Viol: v, Tape: rec})
+			emit(out, caseMsg{T: "viol", Case: i, Seed: cs, Viol: v, Tape: rec, Prelude: prelude})
 		}
 		if endProcess {
 			break
@@ -443,6 +450,9 @@ func replayMain(w World, cfg Config) int {
 			v = &Violation{Sig: sig, Detail: det, Class: strings.SplitN(sig, "|", 2)[0]}
 		}
 	} else {
+		for _, ps := range rf.Prelude {
+			w.RunCase(tape.New(ps), nil) // what the worker process had done before the reported case
+		}
 		v = w.RunCase(tape.Replay(rf.Tape), nil)
 	}
 	if v == nil {
@@ -467,6 +477,7 @@ type found struct {
 	tape    []uint32
 	note    string
 	subproc bool // found through a dying/hanging worker: confirm and shrink in fresh processes
+	prelude []uint64
 }
 
 type job struct {
@@ -915,6 +926,9 @@ func superMain(w World, cfg Config) int {
 		}
 		kf := matchKnown(known, prop, s)
 		rf := ReplayFile{Property: prop, Seed: f.seed, Tape: f.tape, Sig: s, Class: f.v.Class, Detail: f.v.Detail, Note: f.note}
+		if strings.HasPrefix(f.v.Class, "history-dependent") {
+			rf.Prelude = f.prelude
+		}
 		dir := filepath.Join(*fVerif, "replays", prop)
 		os.MkdirAll(dir, 0o755)
 		name := fmt.Sprintf("%s-%016x.json", sanitize(f.v.Class), Hash(s))
@@ -1080,7 +1094,7 @@ func runWorker(j job, cfg Config, workdir string) (fs []found, trouble []string,
 				lastStart = time.Now()
 				mu.Unlock()
 			case "viol":
-				fs = append(fs, found{v: *m.Viol, seed: m.Seed, tape: m.Tape})
+				fs = append(fs, found{v: *m.Viol, seed: m.Seed, tape: m.Tape, prelude: m.Prelude})
 			case "trouble":
 				trouble = append(trouble, fmt.Sprintf("case %d (seed %d): %s", m.Case, m.Seed, m.Note))
 			case "flaky":
